@@ -24,10 +24,16 @@ func propC06(c *Ctx) propInfo {
 	c.limUnaryPairs()
 	c.bufferSizing()
 	c.writersDoNotMutateInput()
+	c.cellCapacity()
+	c.bigIntChunks()
+	c.floor("E7.bigint-chunks", 4)
+	c.floor("E11.cell-capacity", 3)
 	c.errflow(excC06E2, "boc")
 	c.floor("E10.who-may-write", 10)
 	c.floor("E8.capacity", 4)
 	c.floor("E8.availability", 10)
+	c.floor("E8.availability-exact", 8)
+	c.floor("E8.cursor-accounting", 6)
 	c.floor("E12.forwarders", 20)
 	c.floor("E11.tables", 3)
 	c.floor("E2.R-drop", 50)
@@ -325,6 +331,7 @@ func (c *Ctx) availabilityGuards() {
 		// guard edges: Ifs whose one successor returns ErrNotEnoughBits
 		cut := map[edge]bool{}
 		ng := 0
+		var needs []ssa.Value // the amounts the availability guards ask for
 		for _, b := range f.Blocks {
 			ifi := lastIf(b)
 			if ifi == nil {
@@ -341,6 +348,33 @@ func (c *Ctx) availabilityGuards() {
 					}, false) {
 						cut[edge{b, 1 - k}] = true
 						ng++
+						// exactness: the guard refuses exactly when fewer bits are left than asked for; a read
+						// (skip, peek) of precisely the remaining bits succeeds - "an ideal bit list"
+						if bo, ok := ifi.Cond.(*ssa.BinOp); ok {
+							isAvail := func(v ssa.Value) bool {
+								cc := callOf(stripConv(v))
+								return cc != nil && strings.HasSuffix(callQName(&cc.Call), "BitsAvailableForRead")
+							}
+							rel := bo.Op
+							switch {
+							case isAvail(bo.X) && !isAvail(bo.Y):
+							case isAvail(bo.Y) && !isAvail(bo.X):
+								rel = map[token.Token]token.Token{token.LSS: token.GTR, token.GTR: token.LSS, token.LEQ: token.GEQ, token.GEQ: token.LEQ}[rel]
+							default:
+								rel = token.ILLEGAL
+							}
+							if k == 1 && rel != token.ILLEGAL { // the error is on the false edge
+								rel = map[token.Token]token.Token{token.LSS: token.GEQ, token.GTR: token.LEQ, token.LEQ: token.GTR, token.GEQ: token.LSS}[rel]
+							}
+							if rel != token.ILLEGAL {
+								if isAvail(bo.X) {
+									needs = append(needs, bo.Y)
+								} else {
+									needs = append(needs, bo.X)
+								}
+								c.check(rel == token.LSS, "E8.availability-exact", "BitString."+m.Name()+" refuses only when fewer bits are left than requested", bo.Pos(), "error edge taken for available < requested", "BitString."+m.Name()+": the availability guard fails for 'available "+rel.String()+" requested'; it must fail exactly for 'available < requested' - as written, reading (skipping, peeking) exactly the bits that are left is refused although they were written")
+							}
+						}
 					}
 				}
 			}
@@ -348,6 +382,33 @@ func (c *Ctx) availabilityGuards() {
 		if ng == 0 {
 			c.bad(R, key, f.Pos(), "BitString."+m.Name()+" reads the buffer or advances the cursor but has no guard comparing BitsAvailableForRead() whose failing edge returns ErrNotEnoughBits")
 			continue
+		}
+		// cursor accounting: a reader that advances the cursor itself advances it by exactly the amount
+		// its availability guard asked for (reads 8 bits - moves 8 bits)
+		if len(needs) > 0 {
+			for _, in := range sens {
+				st, ok := in.(*ssa.Store)
+				if !ok {
+					continue
+				}
+				bo := st.Val.(*ssa.BinOp)
+				d := bo.Y
+				if _, isLoad := stripConv(bo.Y).(*ssa.UnOp); isLoad {
+					d = bo.X
+				}
+				same := false
+				for _, n := range needs {
+					if n == d || shape(n, 4) == shape(d, 4) {
+						same = true
+					}
+					if k1, ok1 := constInt(n); ok1 {
+						if k2, ok2 := constInt(d); ok2 && k1 == k2 {
+							same = true
+						}
+					}
+				}
+				c.check(same, "E8.cursor-accounting", "BitString."+m.Name()+" advances the cursor by the amount it checked", st.Pos(), "rCursor += "+shape(d, 3), "BitString."+m.Name()+" checks that "+shape(needs[0], 3)+" bits are available but advances the read cursor by "+shape(d, 3)+": the next read starts at the wrong bit")
+			}
 		}
 		reach := reachableWithout(f, cut)
 		var off []string
